@@ -305,7 +305,10 @@ def run_m6bc(rng, tier, case, reference):
         else:
             sol = ref
             if sol['status'] != 'optimal':
-                case.check('uc.feasibility_agrees_with_reference', False, **who, eao='solved', eao_value=float(r.res.value), reference=sol['status'])
+                jump = bool(a.get('ramp') is not None and (a.get('time_already_running', 0) or 0) > 0 and
+                            v[0] - (a.get('last_dispatch', 0.) or 0.) * step > a['ramp'] * step + tol)
+                case.check('uc.feasibility_agrees_with_reference', False, **who, eao='solved', eao_value=float(r.res.value), reference=sol['status'],
+                           eao_first_step_jumps_up_beyond_ramp=jump)
             else:
                 V = float(r.res.value)
                 jump = bool(a.get('ramp') is not None and (a.get('time_already_running', 0) or 0) > 0 and
@@ -444,8 +447,12 @@ def _is_f9(v, rec):
     if v.get('clause') == 'uc.first_step_ramp' and v.get('direction') == 'up' and running:
         return True
     # the same mechanism seen through the reference optimum: EAO's solution uses the vacuous first-step row and is better than the reference
-    return (v.get('clause') == 'uc.value_equals_reference' and running and v.get('eao_first_step_jumps_up_beyond_ramp') is True
-            and isinstance(v.get('reference'), float) and v.get('eao', 0) > v.get('reference'))
+    if (v.get('clause') == 'uc.value_equals_reference' and running and v.get('eao_first_step_jumps_up_beyond_ramp') is True
+            and isinstance(v.get('reference'), float) and v.get('eao', 0) > v.get('reference')):
+        return True
+    # ... or through feasibility: the reference (which enforces the first-step ramp) has no feasible point, EAO's solution jumps up in step 0
+    return (v.get('clause') == 'uc.feasibility_agrees_with_reference' and running and v.get('eao') == 'solved' and v.get('reference') == 'infeasible'
+            and v.get('eao_first_step_jumps_up_beyond_ramp') is True)
 
 
 CLASSIFIERS = {'c06_first_step_up_ramp_when_running': _is_f9}
